@@ -16,7 +16,7 @@ if os.path.exists(p):
 hooks = []
 try:
     out = subprocess.run(["git", "-C", "/repo", "log", "--format=%h %s"], stdout=subprocess.PIPE).stdout.decode()
-    hooks = [l.split()[0] for l in out.splitlines() if l.split(" ", 1)[1].startswith("verif hooks")]
+    hooks = [l.split()[0] for l in out.splitlines() if l.split(" ", 1)[1].startswith("verif hook")]
 except Exception:
     pass
 checks, na = [], []
